@@ -321,9 +321,31 @@ pub static CLOCK_DISCARDS: std::sync::atomic::AtomicU64 = std::sync::atomic::Ato
 
 pub struct Exec { pub now: u64, pub signed: Signed, pub resp: Result<Option<Vec<u8>>, ()> }
 
+/// A TSIG owner given as a compression pointer is resolved against the request when the MAC input is
+/// built. If the name it points to cannot be decoded inside the request alone (a mutated QNAME whose
+/// label runs past the end of the request swallows the TSIG record that is about to be appended), the
+/// signed message is self-referential: what the pointer denotes depends on the MAC octets. Harness and
+/// model then need not construct the same octets — such requests are not generated as signed cases
+/// (they are exercised unsigned by the `server`/`srvscan` groups).
+pub fn degenerate(req: &[u8], s: &Sign) -> bool {
+    if s.skey.len() >= 2 && s.skey[0] >= 0xc0 {
+        let target = (((s.skey[0] & 0x3f) as usize) << 8) | s.skey[1] as usize;
+        let mut probe = req.to_vec();
+        probe.extend_from_slice(&s.skey);
+        let a = dns::decode_name(&probe, req.len()).map(|x| x.0);
+        let b = if target < req.len() { dns::decode_name(req, target).map(|x| x.0) } else { None };
+        return b.is_none() || a != b;
+    }
+    false
+}
+
 /// sign at the current second and handle; repeated until the wall-clock second did not change
 /// between signing and the end of the call (so the server's `now` is exactly `now`)
 pub fn exec(server: &Server<Cat>, req: &[u8], s: &Sign, tcp: bool) -> Option<Exec> {
+    if degenerate(req, s) {
+        CLOCK_DISCARDS.fetch_add(1, std::sync::atomic::Ordering::Relaxed);
+        return None;
+    }
     for _ in 0..8 {
         let now0 = now_secs();
         let signed = sign_request(req, s, now0);
